@@ -1,7 +1,7 @@
 (* C17 — Copy() yields an equivalent and fully independent runtime.
    Only statements here; proofs are in C17/Proofs*.v.  Model.v is otto's
    memoising cloner (clone.go, objectClone, the three Stash.clone methods,
-   argumentsObject.clone, runtime.clone) over a heap graph of objects and
+   argumentsObject.clone, runtime.clone, as of the fix commits 4582d68 and 1f3ee72) over a heap graph of objects and
    stashes; Spec.v says what a copy is (graph isomorphism onto fresh
    locations), the read-only observation programs and the mutation steps.
    The correspondence run ties the real Copy() to these: generated histories,
@@ -16,8 +16,8 @@ Open Scope Z_scope.
    finishes: the memo table is an injective, structure-preserving map onto locations
    that did not exist before (>= n0), it covers the roots (hence, being closed under
    outgoing references, everything reachable), and the new heap holds exactly its image *)
-Theorem C17_clone_iso : forall bad h fuel roots n0 s,
-  clone_roots bad h fuel roots n0 = Ok s ->
+Theorem C17_clone_iso : forall h fuel roots n0 s,
+  clone_roots h fuel roots n0 = Ok s ->
   iso h (out s) (memo s) /\
   (forall r, In r roots -> In r (keys (memo s))) /\
   (forall l', In l' (keys (out s)) <-> In l' (vals (memo s))) /\
@@ -26,30 +26,51 @@ Theorem C17_clone_iso : forall bad h fuel roots n0 s,
 Proof. exact clone_roots_iso. Qed.
 Print Assumptions C17_clone_iso.
 
-Theorem C17_clone_fresh : forall bad h fuel roots n0 s,
+Theorem C17_clone_fresh : forall h fuel roots n0 s,
   (forall l, In l (keys h) -> l < n0) ->
-  clone_roots bad h fuel roots n0 = Ok s -> disjoint h (out s).
+  clone_roots h fuel roots n0 = Ok s -> disjoint h (out s).
 Proof. exact clone_disjoint. Qed.
 Print Assumptions C17_clone_fresh.
 
 (* the depth-first search needs no more fuel than there are cells, and its result
    does not depend on the fuel: the cloner is total on every heap (cycles included) *)
-Theorem C17_clone_terminates : forall bad h fuel roots n0,
-  (length h < fuel)%nat -> clone_roots bad h fuel roots n0 <> Fuel.
+Theorem C17_clone_terminates : forall h fuel roots n0,
+  (length h < fuel)%nat -> clone_roots h fuel roots n0 <> Fuel.
 Proof. exact clone_roots_enough_fuel. Qed.
 Print Assumptions C17_clone_terminates.
 
-Theorem C17_clone_fuel_irrelevant : forall bad h roots n0 f1 f2,
+Theorem C17_clone_fuel_irrelevant : forall h roots n0 f1 f2,
   (length h < f1)%nat -> (length h < f2)%nat ->
-  clone_roots bad h f1 roots n0 = clone_roots bad h f2 roots n0.
+  clone_roots h f1 roots n0 = clone_roots h f2 roots n0.
 Proof. exact clone_roots_fuel_irrelevant. Qed.
 Print Assumptions C17_clone_fuel_irrelevant.
 
-(* wherever otto's cloner returns at all it returns what the panic-free cloner returns *)
-Theorem C17_otto_agrees_where_it_returns : forall h fuel roots n0 s,
-  clone_roots otto_bad h fuel roots n0 = Ok s -> clone_roots no_bad h fuel roots n0 = Ok s.
-Proof. exact clone_roots_no_bad_agree. Qed.
-Print Assumptions C17_otto_agrees_where_it_returns.
+(* Copy() always returns: on a heap without dangling pointers the cloner neither runs out
+   of |heap|+1 fuel nor fails, whatever is absent (prototype, getter, setter, outer stash,
+   the arguments object of a function stash) *)
+Theorem C17_clone_total : forall h fuel roots n0,
+  closed h (keys h) -> (forall r, In r roots -> In r (keys h)) -> (length h < fuel)%nat ->
+  exists s, clone_roots h fuel roots n0 = Ok s.
+Proof. exact clone_total. Qed.
+Print Assumptions C17_clone_total.
+
+(* the runtime record of the copy: global object, the fields of rt.global and the eval
+   intrinsic are the renamed originals, whatever the global property `eval` holds *)
+Theorem C17_runtime_copy_correct : forall h fuel rt n0 h' phi rt',
+  clone_runtime h fuel rt n0 = ROk h' phi rt' ->
+  iso h h' phi /\ rt' = rename_rt (app_memo phi) rt /\
+  In (rt_global rt) (keys phi) /\ (forall f, In f (rt_fields rt) -> In f (keys phi)) /\
+  In (rt_eval rt) (keys phi) /\
+  ((forall l, In l (keys h) -> l < n0) -> disjoint h h').
+Proof. exact clone_runtime_correct. Qed.
+Print Assumptions C17_runtime_copy_correct.
+
+Theorem C17_runtime_copy_total : forall h fuel rt n0,
+  closed h (keys h) -> In (rt_global rt) (keys h) -> (forall f, In f (rt_fields rt) -> In f (keys h)) ->
+  In (rt_eval rt) (keys h) -> (length h < fuel)%nat ->
+  exists h' phi rt', clone_runtime h fuel rt n0 = ROk h' phi rt'.
+Proof. exact clone_runtime_total. Qed.
+Print Assumptions C17_runtime_copy_total.
 
 (* the executable checker that the correspondence run applies to every dumped pair of heaps *)
 Theorem C17_checker_sound : forall h h' phi,
@@ -66,8 +87,8 @@ Theorem C17_observational_equiv : forall h h' phi roots q,
 Proof. exact iso_observational_equiv. Qed.
 Print Assumptions C17_observational_equiv.
 
-Theorem C17_copy_equivalent : forall bad h fuel roots n0 s q,
-  clone_roots bad h fuel roots n0 = Ok s ->
+Theorem C17_copy_equivalent : forall h fuel roots n0 s q,
+  clone_roots h fuel roots n0 = Ok s ->
   observe (out s) (map (app_memo (memo s)) roots) q = observe h roots q.
 Proof. exact clone_equivalent. Qed.
 Print Assumptions C17_copy_equivalent.
@@ -103,9 +124,9 @@ Proof. exact copy_separated. Qed.
 Print Assumptions C17_copy_separated.
 
 (* all together for the cloner: after Copy(), whatever either runtime does is invisible to the other *)
-Theorem C17_copy_isolated : forall bad h fuel roots n0 s,
+Theorem C17_copy_isolated : forall h fuel roots n0 s,
   (forall l, In l (keys h) -> l < n0) -> closed h (keys h) ->
-  clone_roots bad h fuel roots n0 = Ok s ->
+  clone_roots h fuel roots n0 = Ok s ->
   let store := h ++ out s in
   (forall ops, ops_ok store (keys h) ops ->
      forall rs q, incl rs (keys (out s)) -> observe (exec store ops) rs q = observe store rs q) /\
@@ -122,26 +143,19 @@ Theorem C17_copy_of_copy : forall h h' h'' phi psi,
 Proof. exact iso_compose. Qed.
 Print Assumptions C17_copy_of_copy.
 
-(* otto's deviations, as refutations with concrete witnesses *)
-Theorem C17_argparam_refuted :
-  exists h roots, clone_roots otto_bad h 10 roots 100 = Panic /\
-                  exists s, clone_roots no_bad h 10 roots 100 = Ok s.
-Proof. exact argparam_refuted. Qed.
-Print Assumptions C17_argparam_refuted.
+(* the heaps that made Copy() panic or mislay eval before 4582d68 / 1f3ee72 are copied like any other *)
+Example C17_argparam_now_copied :
+  exists s, clone_roots h_argparam 10 [1] 100 = Ok s /\ check_iso h_argparam (out s) (memo s) = true.
+Proof. eexists. split; [vm_compute; reflexivity | vm_compute; reflexivity]. Qed.
 
-Theorem C17_evalgone_refuted :
-  exists h rt, clone_runtime_otto 7 h 10 rt 100 = RPanic /\
-               exists h' phi rt', clone_runtime_spec h 10 rt 100 = ROk h' phi rt'.
-Proof. exact evalgone_refuted. Qed.
-Print Assumptions C17_evalgone_refuted.
-
-Theorem C17_evalswap_refuted :
-  exists h rt h1 phi1 rt1 h2 phi2 rt2,
-    clone_runtime_otto 7 h 10 rt 100 = ROk h1 phi1 rt1 /\
-    clone_runtime_spec h 10 rt 100 = ROk h2 phi2 rt2 /\
-    rt_eval rt1 <> app_memo phi1 (rt_eval rt) /\ rt_eval rt2 = app_memo phi2 (rt_eval rt).
-Proof. exact evalswap_refuted. Qed.
-Print Assumptions C17_evalswap_refuted.
+Example C17_eval_rebound_now_copied :
+  (exists h' phi rt', clone_runtime h_evalgone 10 (mkRt 1 [] 2) 100 = ROk h' phi rt' /\
+                      rt_eval rt' = app_memo phi 2 /\ check_iso h_evalgone h' phi = true) /\
+  (exists h' phi rt', clone_runtime h_evalswap 10 (mkRt 1 [] 2) 100 = ROk h' phi rt' /\
+                      rt_eval rt' = app_memo phi 2 /\ check_iso h_evalswap h' phi = true).
+Proof.
+  split; do 3 eexists; (split; [vm_compute; reflexivity|]); split; vm_compute; reflexivity.
+Qed.
 
 (* non-vacuity: a cyclic heap with a closure, an accessor and a bound function is cloned,
    passes the checker, and a step on the original is a legal step *)
@@ -154,7 +168,7 @@ Definition ex_heap : heap :=
    (6, CObj (mkObj (Some 2) [(16, PData (VRef 3) 5)] 3 true (PArgs (Some 4) [14])))].
 
 Example C17_clone_hyp_met :
-  exists s, clone_roots otto_bad ex_heap 7 [1] 100 = Ok s /\
+  exists s, clone_roots ex_heap 7 [1] 100 = Ok s /\
             check_iso ex_heap (out s) (memo s) = true /\ length (memo s) = 6%nat.
 Proof. eexists. split; [vm_compute; reflexivity|]. split; vm_compute; reflexivity. Qed.
 
